@@ -26,7 +26,22 @@ def anc_closure(edges, classes):
     return anc
 
 
-def _mparams(shape, vp):
+POLS = {0: None, 1: "vpol1", 2: "vpol2", 3: "vpol3", 4: "vpol4", 5: "vpol5"}
+# policies 3 and 4 use custom type ids carried by the classes themselves (static member kid, virtual function vid()):
+# 3: eager ids that differ only above bit 31, perfect hash; 4: deferred ids (assigned at run time, before update), pointer map
+CUSTOM_IDS = (3, 4)
+
+
+def kid_of(pol, c):
+    return "((std::size_t(%d) << 32) | 16)" % c if pol == 3 else str(16 * c)
+
+
+def _vptr(k, pol):
+    # an alias: a template-id with a comma cannot be written inside the macros' parameter tuples
+    return "VP%d" % k
+
+
+def _mparams(shape, vp, pol=0):
     """declared parameter list of a method: shape over V virtual_<K&>, W virtual_<K*>, P virtual_ptr<K>, N int"""
     out, vi = [], 0
     for ch in shape:
@@ -35,11 +50,11 @@ def _mparams(shape, vp):
         else:
             k = vp[vi]
             vi += 1
-            out.append({"V": "virtual_<K%d&>", "W": "virtual_<K%d*>", "P": "virtual_ptr<K%d>"}[ch] % k)
+            out.append({"V": "virtual_<K%d&>" % k, "W": "virtual_<K%d*>" % k, "P": _vptr(k, pol)}[ch])
     return ", ".join(out)
 
 
-def _dparams(shape, dvp):
+def _dparams(shape, dvp, pol=0, skip_first=False):
     out, vi = [], 0
     for i, ch in enumerate(shape):
         if ch == "N":
@@ -47,15 +62,15 @@ def _dparams(shape, dvp):
         else:
             k = dvp[vi]
             vi += 1
-            out.append({"V": "K%d& a%d", "W": "K%d* a%d", "P": "virtual_ptr<K%d> a%d"}[ch] % (k, i))
-    return ", ".join(out)
+            out.append({"V": "K%d& a%d" % (k, i), "W": "K%d* a%d" % (k, i), "P": "%s a%d" % (_vptr(k, pol), i)}[ch])
+    return ", ".join(out[1:] if skip_first else out)
 
 
 def _fwd(shape):
     return ", ".join(("n%d" if ch == "N" else "a%d") % i for i, ch in enumerate(shape))
 
 
-def _args(shape, vp, t):
+def _args(shape, vp, t, pol=0, salt=0):
     """call arguments for objects o<class> of dynamic classes t, statically typed as the method's classes vp"""
     out, vi = [], 0
     for i, ch in enumerate(shape):
@@ -65,14 +80,68 @@ def _args(shape, vp, t):
         v, x = vp[vi], t[vi]
         vi += 1
         ref = "static_cast<K%d&>(o%d)" % (v, x)
-        out.append({"V": ref, "W": "&" + ref, "P": "virtual_ptr<K%d>(%s)" % (v, ref)}[ch])
+        # a virtual_ptr argument is built by one of four routes: from a reference of the parameter's class (dynamic look-up),
+        # from a virtual_ptr of the object's exact class (static shortcut) converted on the way, from a final one, or directly
+        # from the object under its own (derived) static type
+        route = (salt + i + x) % 4
+        vptr = {0: "%s(%s)" % (_vptr(v, pol), ref), 1: "%s(%s(o%d))" % (_vptr(v, pol), _vptr(x, pol), x),
+                2: "%s(%s::final(o%d))" % (_vptr(v, pol), _vptr(x, pol), x), 3: "%s(o%d)" % (_vptr(v, pol), x)}[route]
+        out.append({"V": ref, "W": "&" + ref, "P": vptr}[ch])
     return ", ".join(out)
 
 
-def scenario(idx, classes, edges, statements, methods, defs, abstract=(), shapes=None):
-    """methods: [(m, vp)]; shapes: optional dict m -> shape string (default: all virtual_<K&>)"""
+CAN_FORWARD = {"plain", "box", "inline", "api_next", "api_use", "api_own", "api_fun"}
+
+
+def scenario(idx, classes, edges, statements, methods, defs, abstract=(), shapes=None, style=None):
+    """methods: [(m, vp)]; shapes: optional dict m -> shape string (default: all virtual_<K&>);
+    style: optional front-end variants --
+      style["pol"]      0 the default policy | 1 a policy derived from it by rebind | 2 a hand-assembled one (vptr_map)
+      style["reg"][i]   how statement i registers: classes (register_classes) | use (use_classes<> object) |
+                        decl (one class_declaration per class, bases as listed, itself left out) |
+                        nested (register_classes over several types<...> lists, in any order)
+      style["meth"][m]  free | static (declare_static_method inside a struct) | over (overloaded name, by parameter count)
+      style["def"][(m,d)] plain | box (define_method in a method container) | inline (define_method_inline) |
+                        api_next / api_use / api_own / api_plain (add_definition<Container>, the container taking its
+                        next from method::next<>, use_next<>, its own static member, or having none) |
+                        api_fun / api_fun0 (add_function<f> with / without a next pointer) |
+                        member (add_member_function<&K::f>; first parameter must be virtual_<K*>)
+      style["call"][m]  fn (the generated function) | class (method_class(...)::fn)"""
     shapes = shapes or {}
+    style = style or {}
     shape_of = lambda m, vp: shapes.get(m, "V" * len(vp))
+    sreg = style.get("reg", {})
+    smeth = style.get("meth", {})
+    sdef = style.get("def", {})
+    scall = style.get("call", {})
+    pol = style.get("pol", 0)
+    polarg = (", " + POLS[pol]) if pol else ""
+    mvp0 = {m: vp for m, vp in methods}
+    sdef = dict(sdef)
+    for m, d, vp in defs:      # styles that the method's kind or shape cannot carry fall back to the macro
+        k = sdef.get((m, d), "plain")
+        if k.startswith("api") and smeth.get(m, "free") == "static":
+            sdef[(m, d)] = "plain"
+        # (a member function cannot take a virtual_ptr by value: the thunk of add_member_function turns every parameter
+        # into a forwarding reference, and virtual_ptr<..>&& is not a parameter form the library knows -- see DESIGN.md 12)
+        if k == "member" and (shape_of(m, mvp0[m])[0] != "W" or "P" in shape_of(m, mvp0[m]) or smeth.get(m, "free") == "static"):
+            sdef[(m, d)] = "plain"
+    members = {}
+    for m, d, vp in defs:
+        if sdef.get((m, d)) == "member":
+            members.setdefault(vp[0], []).append((m, d, vp))
+    over_len = {}
+    for m, vp in methods:     # an overloaded name is usable once per parameter count
+        if smeth.get(m) == "over":
+            n = len(shape_of(m, vp))
+            if n in over_len:
+                smeth = dict(smeth); smeth[m] = "free"
+            else:
+                over_len[n] = m
+
+    def mname(m):
+        k = smeth.get(m, "free")
+        return "H%d::m%d" % (m, m) if k == "static" else ("mo" if k == "over" else "m%d" % m)
     """statements: list of lists of classes (each one register_classes(...)); methods: [(m, vp)];
     defs: [(m, d, vp)].  Precondition (C08): every direct edge has both ends in some statement."""
     anc = anc_closure(edges, classes)
@@ -82,63 +151,138 @@ def scenario(idx, classes, edges, statements, methods, defs, abstract=(), shapes
     virt = "virtual " if multi else ""
     ns = "g%d" % idx
     o = ["namespace %s {" % ns]
+    o.append(" ".join("struct K%d;" % c for c in classes))
+    o.append(" ".join("using VP%d = virtual_ptr<K%d%s>;" % (c, c, polarg) for c in classes))
     for c in classes:   # classes are numbered so that bases come first
         bases = ", ".join("%spublic K%d" % (virt, b) for b in direct[c])
         # abstract classes are really abstract (is_abstract comes from std::is_abstract_v); every class says what it
         # does about the pure function, so that the concrete ones are instantiable whatever their bases
         pure = "virtual void pure%d() = 0;" % idx if c in abstract else "virtual void pure%d() {}" % idx
-        o.append("struct K%d%s { int tag%d = %d; virtual ~K%d() {} %s };" % (c, (" : " + bases) if bases else "", c, c, c, pure))
-    for st in statements:
-        o.append("register_classes(%s);" % ", ".join("K%d" % c for c in st))
+        mf = " ".join("int mf%d_%d(%s);" % (m, d, _dparams(shape_of(m, mvp0[m]), vp, pol, True)) for m, d, vp in members.get(c, []))
+        ids = ""
+        if pol in CUSTOM_IDS:
+            ids = "inline static std::size_t kid = %s; virtual std::size_t vid() const { return kid; }" % (kid_of(pol, c) if pol == 3 else "0")
+        o.append("struct K%d%s { int tag%d = %d; virtual ~K%d() {} %s %s %s };" % (c, (" : " + bases) if bases else "", c, c, c, pure, mf, ids))
+    for i, st in enumerate(statements):
+        k = sreg.get(i, "classes")
+        if k == "classes":
+            o.append("register_classes(%s%s);" % (", ".join("K%d" % c for c in st), polarg))
+        elif k == "use":
+            o.append("yorel::yomm2::use_classes<%s%s> YOMM2_GENSYM;" % (", ".join("K%d" % c for c in st), polarg))
+        elif k == "nested":
+            # the statement cut into consecutive types<> lists (the caller has put it in the order it wants)
+            cuts = style.get("cuts", {}).get(i) or [len(st) // 2]
+            parts, prev = [], 0
+            for cpos in list(cuts) + [len(st)]:
+                if cpos > prev:
+                    parts.append(st[prev:cpos])
+                    prev = cpos
+            o.append("register_classes(%s%s);" % (", ".join("yorel::yomm2::detail::types<%s>" % ", ".join("K%d" % c for c in part) for part in parts), polarg))
+        else:
+            for c in st:
+                o.append("yorel::yomm2::class_declaration<yorel::yomm2::detail::types<%s%s>> YOMM2_GENSYM;" %
+                         (", ".join("K%d" % x for x in [c] + [b for b in st if b in anc[c] and b != c]), polarg))
     mvp = {m: vp for m, vp in methods}
     for m, vp in methods:
-        o.append("declare_method(int, m%d, (%s));" % (m, _mparams(shape_of(m, vp), vp)))
+        k = smeth.get(m, "free")
+        if k == "static":
+            o.append("struct H%d { declare_static_method(int, m%d, (%s)%s); };" % (m, m, _mparams(shape_of(m, vp), vp, pol), polarg))
+        else:
+            o.append("declare_method(int, %s, (%s)%s);" % (mname(m), _mparams(shape_of(m, vp), vp, pol), polarg))
+        kinds = set(sdef.get((mm, d), "plain") for mm, d, _ in defs if mm == m)
+        if kinds & {"box", "inline"}:
+            o.append("method_container(box%d);" % m)
+        if any(x.startswith("api") or x == "member" for x in kinds):
+            o.append("using M%d = method_class(int, %s, (%s)%s);" % (m, mname(m), _mparams(shape_of(m, vp), vp, pol), polarg))
     for m, d, vp in defs:
         # a definition returns its number; when asked to, it forwards the call to next (macro front end)
         sh = shape_of(m, mvp[m])
-        o.append("define_method(int, m%d, (%s)) { if (g_via_next) { g_via_next = false; return next(%s); } return %d; }" %
-                 (m, _dparams(sh, vp), _fwd(sh), d))
+        k = sdef.get((m, d), "plain")
+        ps, fw = _dparams(sh, vp, pol), _fwd(sh)
+        body = "{ if (g_via_next) { g_via_next = false; return next(%s); } return %d; }" % (fw, d)
+        if k in ("plain", "box", "inline"):
+            head = {"plain": "define_method(int, %s, " % mname(m), "box": "define_method(box%d, int, %s, " % (m, mname(m)),
+                    "inline": "define_method_inline(box%d, int, %s, " % (m, mname(m))}[k]
+            o.append("%s(%s)) %s" % (head, ps, body))
+        elif k in ("api_next", "api_use"):
+            o.append("struct D%d_%d : M%d::%s<D%d_%d> { static int fn(%s) %s };" % (m, d, m, "next" if k == "api_next" else "use_next", m, d, ps, body))
+            o.append("static M%d::add_definition<D%d_%d> YOMM2_GENSYM;" % (m, m, d))
+        elif k == "api_own":
+            o.append("struct D%d_%d { static M%d::next_type next; static int fn(%s) %s };" % (m, d, m, ps, body))
+            o.append("M%d::next_type D%d_%d::next;" % (m, m, d))
+            o.append("static M%d::add_definition<D%d_%d> YOMM2_GENSYM;" % (m, m, d))
+        elif k == "api_plain":
+            o.append("struct D%d_%d { static int fn(%s) { return %d; } };" % (m, d, ps, d))
+            o.append("static M%d::add_definition<D%d_%d> YOMM2_GENSYM;" % (m, m, d))
+        elif k == "api_fun":
+            o.append("static M%d::next_type nx%d_%d;" % (m, m, d))
+            o.append("static int f%d_%d(%s) { if (g_via_next) { g_via_next = false; return nx%d_%d(%s); } return %d; }" % (m, d, ps, m, d, fw, d))
+            o.append("static M%d::add_function<f%d_%d> YOMM2_GENSYM(&nx%d_%d);" % (m, m, d, m, d))
+        elif k == "api_fun0":
+            o.append("static int f%d_%d(%s) { return %d; }" % (m, d, ps, d))
+            o.append("static M%d::add_function<f%d_%d> YOMM2_GENSYM;" % (m, m, d))
+        elif k == "member":
+            o.append("int K%d::mf%d_%d(%s) { return tag%d == %d ? %d : -77; }" % (vp[0], m, d, _dparams(sh, vp, pol, True), vp[0], vp[0], d))
+            o.append("static M%d::add_member_function<&K%d::mf%d_%d> YOMM2_GENSYM;" % (m, vp[0], m, d))
+
+    def callee(m, vp):
+        if scall.get(m) == "class" and smeth.get(m, "free") == "free":
+            return "method_class(int, m%d, (%s)%s)::fn" % (m, _mparams(shape_of(m, vp), vp, pol), polarg)
+        return mname(m)
     o.append("void run() {")
+    if pol == 4:     # deferred ids: known only now
+        for c in classes:
+            o.append("    K%d::kid = %s;" % (c, kid_of(pol, c)))
     r = 0
-    for st in statements:
+    for i, st in enumerate(statements):
         for c in st:
             r += 1
             listed = [b for b in st if b in anc[c]]     # what inheritance_map keeps: the classes of the statement that are bases of c (itself included)
-            o.append('    std::printf("{\\"e\\":\\"class\\",\\"p\\":0,\\"r\\":%d,\\"c\\":%d,\\"bases\\":%s,\\"abs\\":%s}\\n");' %
-                     (idx * 1000 + r, c, str(listed).replace(" ", ""), "true" if c in abstract else "false"))
+            if sreg.get(i, "classes") == "decl":
+                listed = [b for b in listed if b != c]
+            o.append('    std::printf("{\\"e\\":\\"class\\",\\"p\\":%d,\\"r\\":%d,\\"c\\":%d,\\"bases\\":%s,\\"abs\\":%s}\\n");' %
+                     (pol, idx * 1000 + r, c, str(listed).replace(" ", ""), "true" if c in abstract else "false"))
     for m, vp in methods:
-        o.append('    std::printf("{\\"e\\":\\"method\\",\\"p\\":0,\\"m\\":%d,\\"shape\\":\\"%s\\",\\"vp\\":%s}\\n");' %
-                 (idx * 100 + m, shape_of(m, vp), str(list(vp)).replace(" ", "")))
+        # so: is the method compiled with generated static offsets (1 / 0; -1: not asked, the method class of a static method
+        # has no spelling through method_class)
+        so = "-1" if smeth.get(m, "free") == "static" else \
+            "(int)yorel::yomm2::detail::has_static_offsets<method_class(int, %s, (%s)%s)>::value" % (mname(m), _mparams(shape_of(m, vp), vp, pol), polarg)
+        o.append('    std::printf("{\\"e\\":\\"method\\",\\"p\\":%d,\\"m\\":%d,\\"shape\\":\\"%s\\",\\"vp\\":%s,\\"so\\":%%d}\\n", %s);' %
+                 (pol, idx * 100 + m, shape_of(m, vp), str(list(vp)).replace(" ", ""), so))
     for m, d, vp in defs:
-        o.append('    std::printf("{\\"e\\":\\"def\\",\\"p\\":0,\\"m\\":%d,\\"d\\":%d,\\"vp\\":%s}\\n");' %
-                 (idx * 100 + m, d, str(list(vp)).replace(" ", "")))
+        o.append('    std::printf("{\\"e\\":\\"def\\",\\"p\\":%d,\\"m\\":%d,\\"d\\":%d,\\"vp\\":%s}\\n");' %
+                 (pol, idx * 100 + m, d, str(list(vp)).replace(" ", "")))
     o.append("}")
     o.append("void tables() {")
     concrete = [c for c in classes if c not in abstract]
     for c in concrete:
         o.append("    K%d o%d;" % (c, c))
-    o.append("    const std::type_info* tis[] = {%s};" % ", ".join("&typeid(K%d)" % c for c in classes))
+    if pol in CUSTOM_IDS:
+        o.append("    const std::size_t tis[] = {%s};" % ", ".join("K%d::kid" % c for c in classes))
+    else:
+        o.append("    const std::type_info* tis[] = {%s};" % ", ".join("&typeid(K%d)" % c for c in classes))
     o.append("    const int nums[] = {%s};" % ", ".join(str(c) for c in classes))
-    o.append("    auto cls = [&](yorel::yomm2::type_id id) { for (std::size_t i = 0; i < sizeof(nums) / sizeof(int); ++i) if (reinterpret_cast<yorel::yomm2::type_id>(tis[i]) == id) return nums[i]; return -1; };")
+    o.append("    auto cls = [&](yorel::yomm2::type_id id) { for (std::size_t i = 0; i < sizeof(nums) / sizeof(int); ++i) if ((yorel::yomm2::type_id)(tis[i]) == id) return nums[i]; return -1; };")
     for m, vp in methods:
         o.append('    { std::string rows;')
         cov = [[x for x in concrete if v in anc[x]] for v in vp]
         import itertools
         for t in itertools.product(*cov):
-            args = _args(shape_of(m, vp), vp, t)
-            o.append('      { g_err = ErrRec(); int o = call([&] { return m%d(%s); }); rows += (rows.empty() ? "" : ",") + std::string("[%s,") + std::to_string(o) + "," + (o >= 0 ? std::string("[]") : err_json(cls)) + "]"; }' %
-                     (m, args, str(list(t)).replace(" ", "")))
-        o.append('      std::printf("{\\"e\\":\\"ctable\\",\\"p\\":0,\\"m\\":%d,\\"shape\\":\\"%s\\",\\"concrete\\":true,\\"rows\\":[%%s]}\\n", rows.c_str()); }' %
-                 (idx * 100 + m, shape_of(m, vp)))
+            args = _args(shape_of(m, vp), vp, t, pol, idx + m)
+            o.append('      { g_err = ErrRec(); int o = call([&] { return %s(%s); }); rows += (rows.empty() ? "" : ",") + std::string("[%s,") + std::to_string(o) + "," + (o >= 0 ? std::string("[]") : err_json(cls)) + "]"; }' %
+                     (callee(m, vp), args, str(list(t)).replace(" ", "")))
+        o.append('      std::printf("{\\"e\\":\\"ctable\\",\\"p\\":%d,\\"m\\":%d,\\"shape\\":\\"%s\\",\\"concrete\\":true,\\"rows\\":[%%s]}\\n", rows.c_str()); }' %
+                 (pol, idx * 100 + m, shape_of(m, vp)))
     # what next refers to inside every definition: call the method with objects of exactly the definition's
     # classes (the definition itself is selected) and let it forward to next
     for m, vp in methods:
-        mdefs = [(d, dvp) for mm, d, dvp in defs if mm == m and all(x not in abstract for x in dvp)]
+        mdefs = [(d, dvp) for mm, d, dvp in defs if mm == m and all(x not in abstract for x in dvp) and sdef.get((m, d), "plain") in CAN_FORWARD]
         o.append('    { std::string rows;')
         for d, dvp in mdefs:
-            args = _args(shape_of(m, vp), vp, dvp)
-            o.append('      { g_via_next = true; int o = call([&] { return m%d(%s); }); g_via_next = false; rows += (rows.empty() ? "" : ",") + std::string("[%d,") + std::to_string(o) + "," + std::to_string(o) + "]"; }' % (m, args, d))
-        o.append('      std::printf("{\\"e\\":\\"next\\",\\"p\\":0,\\"m\\":%d,\\"concrete\\":true,\\"rows\\":[%%s]}\\n", rows.c_str()); }' % (idx * 100 + m))
+            args = _args(shape_of(m, vp), vp, dvp, pol, idx + m + 1)
+            o.append('      { g_via_next = true; int o = call([&] { return %s(%s); }); g_via_next = false; rows += (rows.empty() ? "" : ",") + std::string("[%d,") + std::to_string(o) + "," + std::to_string(o) + "]"; }' % (callee(m, vp), args, d))
+        skipped = [d for mm, d, dvp in defs if mm == m and all(x not in abstract for x in dvp) and sdef.get((m, d), "plain") not in CAN_FORWARD]
+        o.append('      std::printf("{\\"e\\":\\"next\\",\\"p\\":%d,\\"m\\":%d,\\"concrete\\":true,\\"skip\\":%s,\\"rows\\":[%%s]}\\n", rows.c_str()); }' % (pol, idx * 100 + m, str(skipped).replace(" ", "")))
     o.append("}")
     o.append("} // namespace")
     return "\n".join(o)
@@ -166,24 +310,81 @@ template<class C> static std::string err_json(C cls) {
 '''
 
 
-def program(name, scenarios):
-    """All scenarios of a program share the default policy: their classes, methods and definitions form
-    one registry (class and method numbers are made distinct by the caller)."""
+CUSTOM_RTTI = r'''
+template<class T, class = void> struct has_kid : std::false_type {};
+template<class T> struct has_kid<T, std::void_t<decltype(T::kid)>> : std::true_type {};
+template<class Base> struct kid_rtti : Base {
+    template<typename T> static type_id static_type() { if constexpr (has_kid<T>::value) return T::kid; else return 1; }
+    template<typename T> static type_id dynamic_type(const T& obj) { if constexpr (has_kid<T>::value) return obj.vid(); else return 1; }
+    template<class Stream> static void type_name(type_id t, Stream& s) { s << "kid#" << t; }
+    template<typename D, typename B> static D dynamic_cast_ref(B&& obj) { return dynamic_cast<D>(obj); }
+};
+struct vpol3 : policy::basic_policy<vpol3, kid_rtti<policy::rtti>, policy::fast_perfect_hash<vpol3>, policy::vptr_vector<vpol3>, policy::vectored_error<vpol3>> {};
+struct vpol4 : policy::basic_policy<vpol4, kid_rtti<policy::deferred_static_rtti>, policy::vptr_map<vpol4>, policy::vectored_error<vpol4>> {};
+struct vpol5 : policy::basic_policy<vpol5, policy::std_rtti, policy::fast_perfect_hash<vpol5>, policy::vptr_vector<vpol5>, policy::basic_indirect_vptr<vpol5>, policy::vectored_error<vpol5>> {};
+'''
+
+
+def program(name, scenarios, staged=False):
+    """All scenarios of one policy form one registry (class and method numbers are made distinct by the caller).
+    staged: the source serves a two-stage build, selected by -DVERIF_STAGE=n (default policy scenarios only):
+      1  generator: update, then write slots.hpp (write_static_offsets for the policy) and tables.hpp (encode_dispatch_data)
+      2  application compiled with the generated slots.hpp, dispatch data built by update
+      3  application compiled with slots.hpp whose dispatch data is installed by the generated tables.hpp (update never runs)
+      4  application without static offsets whose dispatch data is installed by tables.hpp"""
     o = [gen.PRELUDE, COMMON]
-    for sc in scenarios:
-        o.append(scenario(*sc))
+    pols = sorted(set(((sc[8] if len(sc) > 8 and sc[8] else {}).get("pol", 0)) for sc in scenarios))
+    if staged:
+        assert pols == [0]
+        o.append("#include <fstream>\n#include <yorel/yomm2/generator.hpp>\n#include <yorel/yomm2/decode.hpp>")
+    o.append("struct vpol1 : default_policy::rebind<vpol1> {};")
+    o.append("struct vpol2 : policy::basic_policy<vpol2, policy::std_rtti, policy::vptr_map<vpol2>, policy::vectored_error<vpol2>> {};")
+    o.append(CUSTOM_RTTI)
+    if not staged:
+        for sc in scenarios:
+            o.append(scenario(*sc))
+    else:
+        # declarations first, then the generated offsets, then the functions that call the methods
+        parts = [scenario(*sc).split("void run() {", 1) for sc in scenarios]
+        for sc, (decl, _) in zip(scenarios, parts):
+            o.append(decl + "} // namespace (declarations)")
+        o.append("#if VERIF_STAGE == 2 || VERIF_STAGE == 3\n#include \"slots.hpp\"\n#endif")
+        for sc, (_, fns) in zip(scenarios, parts):
+            o.append("namespace g%d {\nvoid run() {%s" % (sc[0], fns))
     o.append("int main() {")
-    o.append('    std::printf("{\\"e\\":\\"reset\\",\\"script\\":\\"%s\\",\\"bindings\\":[\\"gen\\"]}\\n");' % name)
+    if staged:
+        o.append('    std::printf("{\\"e\\":\\"reset\\",\\"script\\":\\"%s.s%%d\\",\\"bindings\\":[\\"gen\\"]}\\n", VERIF_STAGE);' % name)
+    else:
+        o.append('    std::printf("{\\"e\\":\\"reset\\",\\"script\\":\\"%s\\",\\"bindings\\":[\\"gen\\"]}\\n");' % name)
     o.append("    yorel::yomm2::set_error_handler([](const yorel::yomm2::error_type& ev) {")
     o.append("        if (auto e = std::get_if<yorel::yomm2::resolution_error>(&ev)) throw *e; });")
     for sc in scenarios:
         o.append("    g%d::run();" % sc[0])
-    o.append("    auto comp = yorel::yomm2::update();")
-    o.append("    std::size_t built = 0; for (auto& m : comp.methods) if (m.arity() > 1) built += m.dispatch_table.size();")
-    o.append('    std::printf("{\\"e\\":\\"update\\",\\"p\\":0,\\"res\\":\\"ok\\",\\"c\\":0,\\"rep\\":{\\"cells\\":%zu,\\"concrete_cells\\":%zu,\\"not_implemented\\":%zu,"')
-    o.append('                "\\"concrete_not_implemented\\":%zu,\\"ambiguous\\":%zu,\\"concrete_ambiguous\\":%zu,\\"built\\":%zu}}\\n",')
-    o.append("                comp.report.cells, comp.report.concrete_cells, comp.report.not_implemented, comp.report.concrete_not_implemented,")
-    o.append("                comp.report.ambiguous, comp.report.concrete_ambiguous, built);")
+    if staged:
+        o.append("#if VERIF_STAGE >= 3")
+        o.append("    {")
+        o.append('#include "tables.hpp"')
+        o.append("    }")
+        o.append('    std::puts("{\\"e\\":\\"installed\\",\\"p\\":0,\\"from\\":\\"tables.hpp\\"}");')
+        o.append("#else")
+    for p in pols:
+        if p:
+            o.append("    %s::error = [](const yorel::yomm2::error_type& ev) {" % POLS[p])
+            o.append("        if (auto e = std::get_if<yorel::yomm2::resolution_error>(&ev)) throw *e; };")
+        o.append("    { auto comp = yorel::yomm2::update%s();" % (("<%s>" % POLS[p]) if p else ""))
+        o.append("    std::size_t built = 0; for (auto& m : comp.methods) if (m.arity() > 1) built += m.dispatch_table.size();")
+        o.append('    std::printf("{\\"e\\":\\"update\\",\\"p\\":%d,\\"res\\":\\"ok\\",\\"c\\":0,\\"rep\\":{\\"cells\\":%%zu,\\"concrete_cells\\":%%zu,\\"not_implemented\\":%%zu,"' % p)
+        o.append('                "\\"concrete_not_implemented\\":%zu,\\"ambiguous\\":%zu,\\"concrete_ambiguous\\":%zu,\\"built\\":%zu}}\\n",')
+        o.append("                comp.report.cells, comp.report.concrete_cells, comp.report.not_implemented, comp.report.concrete_not_implemented,")
+        o.append("                comp.report.ambiguous, comp.report.concrete_ambiguous, built);")
+        if staged:
+            o.append("#if VERIF_STAGE == 1")
+            o.append('    { std::ofstream f("slots.hpp"); yorel::yomm2::generator().write_static_offsets<YOMM2_DEFAULT_POLICY>(f); }')
+            o.append('    { std::ofstream f("tables.hpp"); yorel::yomm2::generator::encode_dispatch_data(comp, f); }')
+            o.append("#endif")
+        o.append("    }")
+    if staged:
+        o.append("#endif")
     for sc in scenarios:
         o.append("    g%d::tables();" % sc[0])
     o.append('    std::puts("{\\"e\\":\\"end\\"}");')
